@@ -48,6 +48,8 @@ EXTENDS Integers, FiniteSets, Sequences, TLC
 VARIABLES cfg,       \* [range : set of ports, k : number of callers, atomic : BOOLEAN, ret : BOOLEAN]  constant after Init
                      \*   ret = TRUE: a finished call waits in step "done" for its return event (trace validation);
                      \*   ret = FALSE: it becomes idle at once (exhaustive configs: returning touches nothing shared)
+                     \*   env = TRUE (trace validation): ENVELOPE of both designs - reservations are tracked, an add may be
+                     \*   refused as duplicate because the id is reserved, but need not be
           torrents,  \* s.torrents : id -> [h, port, p]          (h = handle identity)
           byih,      \* s.torrentsByInfoHash, as the set of [h, id] entries of all lists
           ports,     \* s.availablePorts
@@ -81,6 +83,7 @@ ResetWith(c) ==
     /\ cfg' = c /\ torrents' = i.torrents /\ byih' = i.byih /\ ports' = i.ports /\ db' = i.db /\ invalid' = i.invalid
     /\ orphans' = i.orphans /\ reserved' = i.reserved /\ pc' = i.pc /\ crashed' = i.crashed
 
+Tracking  == cfg.atomic \/ cfg.env
 Quiescent == \A c \in Callers : pc[c].op = "idle"
 At(c, op, st) == pc[c].op = op /\ pc[c].step = st
 Fin(f, res)   == IF cfg.ret THEN [f EXCEPT !.step = "done", !.res = res, !.port = 0] ELSE Idle
@@ -100,7 +103,8 @@ Return(c) ==
 -----------------------------------------------------------------------------
 (* add                                                                      *)
 
-\* a = [explicit, fail, p]  (fail = "none" | "storage" | "any": whether GetStorage is going to fail);
+\* a = [explicit, fail, p]  (fail = "none" | "storage" | "write" | "any": the injected fault - GetStorage fails / the
+\* resume-record transaction fails);
 \* h = 0: the handle is named after its port (exhaustive configs)
 BeginAdd(c, id, h, a) == Begin(c, "Add", "take", id, h, a)
 
@@ -124,10 +128,12 @@ AddTakeUpd(c, out) ==
 \* out \in {"dup", "storage", "pass"}
 AddCheckViol(c, out) ==
     LET f == pc[c]
-        present == f.id \in DOMAIN torrents \/ f.id \in reserved
-    IN  IF out = "dup" THEN (IF f.a.explicit /\ present THEN "" ELSE "C14.id.spurious-duplicate")
+        \* reserved is {} unless cfg.atomic or cfg.env; under cfg.env a reservation MAY refuse, only registration MUST
+        mayRefuse  == f.id \in DOMAIN torrents \/ f.id \in reserved
+        present    == f.id \in DOMAIN torrents \/ (cfg.atomic /\ f.id \in reserved)
+    IN  IF out = "dup" THEN (IF f.a.explicit /\ mayRefuse THEN "" ELSE "C14.id.spurious-duplicate")
         ELSE IF present THEN (IF f.a.explicit THEN "C14.id.duplicate-accepted" ELSE "C14.id.generated-not-fresh")
-        ELSE IF out = "storage" /\ f.a.fail = "none" THEN "C14.add.spurious-failure"
+        ELSE IF out = "storage" /\ f.a.fail \in {"none", "write"} THEN "C14.add.spurious-failure"
         ELSE IF out = "pass" /\ f.a.fail = "storage" THEN "C14.add.failure-ignored"
         ELSE ""
 \* @obligation C14.leak  a failing add gives its port back
@@ -135,13 +141,21 @@ AddCheckUpd(c, out) ==
     /\ At(c, "Add", "check")
     /\ IF out = "pass"
        THEN /\ Goto(c, "write")
-            /\ reserved' = IF cfg.atomic THEN reserved \cup {pc[c].id} ELSE reserved
+            /\ reserved' = IF Tracking THEN reserved \cup {pc[c].id} ELSE reserved
             /\ UNCHANGED ports
        ELSE /\ ports' = ports \cup {pc[c].port}
             /\ Done(c, out)
             /\ UNCHANGED reserved
     /\ UNCHANGED <<cfg, torrents, byih, db, invalid, orphans, crashed>>
 
+\* @obligation C14.leak  EVERY failure point of add gives back what was taken before it: take (nothing taken), check
+\*   (duplicate / GetStorage: port), write (newTorrent / resume-record transaction: port, reservation, the half-built
+\*   torrent is closed).  insert and started cannot fail.  (newTorrent fails only for an info-hash that is not 20 bytes,
+\*   which add / addMagnet cannot produce; at load it makes the record invalid before any port is taken.)
+AddWriteViol(c, ok) ==
+    IF ok /\ pc[c].a.fail = "write" THEN "C14.add.failure-ignored"
+    ELSE IF ~ok /\ pc[c].a.fail \in {"none", "storage"} THEN "C14.add.spurious-failure"
+    ELSE ""
 \* resumer.Write creates or OVERWRITES the record of that id (ok = FALSE: the transaction failed)
 AddWrite(c, ok) ==
     /\ At(c, "Add", "write")
@@ -155,7 +169,7 @@ AddWrite(c, ok) ==
             /\ UNCHANGED <<ports, reserved>>
        ELSE /\ ports' = ports \cup {f.port}
             /\ reserved' = reserved \ {f.id}
-            /\ Done(c, "err")
+            /\ Done(c, "dbwrite")
             /\ UNCHANGED <<db, invalid>>
     /\ UNCHANGED <<cfg, torrents, byih, orphans, crashed>>
 
@@ -192,15 +206,17 @@ RemDetach(c) ==
        IF id \in DOMAIN torrents
        THEN /\ torrents' = Del(torrents, id)
             /\ byih' = byih \ {[h |-> torrents[id].h, id |-> id]}
-            /\ reserved' = IF cfg.atomic THEN reserved \cup {id} ELSE reserved
+            /\ reserved' = IF Tracking THEN reserved \cup {id} ELSE reserved
             /\ pc' = [pc EXCEPT ![c].step = "dbdel", ![c].h = torrents[id].h, ![c].port = torrents[id].port]
        ELSE /\ Done(c, "ok")
             /\ UNCHANGED <<torrents, byih, reserved>>
     /\ UNCHANGED <<cfg, ports, db, invalid, orphans, crashed>>
 
-RemDb(c) ==
+\* ok = FALSE: the DeleteBucket transaction failed; the remove goes on all the same (reservation dropped, torrent
+\* closed, port released) - @obligation C14.leak for remove
+RemDb(c, ok) ==
     /\ At(c, "Remove", "dbdel")
-    /\ db' = Del(db, pc[c].id)
+    /\ db' = IF ok THEN Del(db, pc[c].id) ELSE db
     /\ reserved' = reserved \ {pc[c].id}
     /\ Goto(c, "release")
     /\ UNCHANGED <<cfg, torrents, byih, ports, invalid, orphans, crashed>>
